@@ -1,5 +1,6 @@
 //! Shared utilities for writing floats.
 
+use lexical_util::algorithm::rtrim_char_count;
 use lexical_util::digit::{char_to_valid_digit_const, digit_to_char_const};
 use lexical_util::format::NumberFormat;
 use lexical_write_integer::write::WriteInteger;
@@ -46,6 +47,16 @@ pub fn round_up(digits: &mut [u8], count: usize, radix: u32) -> (usize, bool) {
     (1, true)
 }
 
+/// Get the number of digits left when the first `count` digits are kept.
+///
+/// The digits never end in zeros: this drops the ones that a truncation
+/// exposes (`955.05` to 4 digits is `955`, not `955.0`).
+#[inline(always)]
+fn rtrim_zeros(digits: &[u8], count: usize) -> usize {
+    // The leading digit is always significant.
+    count - rtrim_char_count(&digits[1..count], b'0')
+}
+
 /// Round the number of digits based on the maximum digits, for decimal digits.
 ///
 /// `digits` is a mutable buffer of the current digits, `digit_count` is the
@@ -73,7 +84,7 @@ pub fn truncate_and_round_decimal(
     // Check if we're truncating, if so, shorten the digits in the input.
     if options.round_mode() == RoundMode::Truncate {
         // Don't round input, just shorten number of digits emitted.
-        return (max_digits, false);
+        return (rtrim_zeros(digits, max_digits), false);
     }
 
     // We need to round-nearest, tie-even, so we need to handle
@@ -86,7 +97,7 @@ pub fn truncate_and_round_decimal(
     let truncated = digits[max_digits];
     let (digits, carried) = if truncated < b'5' {
         // Just truncate, going to round-down anyway.
-        (max_digits, false)
+        (rtrim_zeros(digits, max_digits), false)
     } else if truncated > b'5' {
         // Round-up always.
         round_up(digits, max_digits, 10)
@@ -100,7 +111,7 @@ pub fn truncate_and_round_decimal(
             // digit_count`.
             round_up(digits, max_digits, 10)
         } else {
-            (max_digits, false)
+            (rtrim_zeros(digits, max_digits), false)
         }
     };
 
